@@ -7,3 +7,12 @@ Open Scope string_scope.
 
 Lemma mask_interp_all : forallb mask_interp_ok class_table = true.
 Proof. vm_compute. reflexivity. Qed.
+
+Lemma fills_stay_on_their_side : forallb fill_row_ok fill_table = true.
+Proof. vm_compute. reflexivity. Qed.
+(* the table has the rows the statement is about *)
+Lemma fill_table_covers :
+  existsb (fun r => let '(c, m, k, _) := r in String.eqb c "CropAndPad" && String.eqb k "pad_value_mask") fill_table = true /\
+  existsb (fun r => let '(c, m, k, _) := r in String.eqb c "PadIfNeeded" && String.eqb m "apply_to_mask") fill_table = true /\
+  existsb (fun r => let '(c, m, k, _) := r in String.eqb c "Rotate" && String.eqb m "apply_to_mask") fill_table = true.
+Proof. vm_compute. repeat split; reflexivity. Qed.
